@@ -12,6 +12,7 @@ import (
 	"math"
 	"sort"
 	"strings"
+	"sync"
 
 	"verifharness/vlib/render"
 
@@ -49,6 +50,24 @@ func flatBookmarks(prefix string, l []backend.BookmarkNode, out *[]string) {
 	}
 }
 
+// user stylesheets are parsed once per process and the tree.CSS value is
+// shared by every render that uses the same text (sequentially and
+// concurrently), the way the user agent stylesheets are: a render must treat
+// a stylesheet as an immutable input
+var cssCache sync.Map
+
+func parseShared(text string) (tree.CSS, error) {
+	if v, ok := cssCache.Load(text); ok {
+		return v.(tree.CSS), nil
+	}
+	c, err := render.ParseCSS(text)
+	if err != nil {
+		return tree.CSS{}, err
+	}
+	v, _ := cssCache.LoadOrStore(text, c)
+	return v.(tree.CSS), nil
+}
+
 func renderDoc(d Doc, fonts text.FontConfiguration) (*document.Document, error) {
 	doc, err := render.ParseHTML(d.HTML, d.TestUA, utils.DefaultUrlFetcher)
 	if err != nil {
@@ -56,7 +75,7 @@ func renderDoc(d Doc, fonts text.FontConfiguration) (*document.Document, error) 
 	}
 	var sheets []tree.CSS
 	for _, s := range d.CSS {
-		c, err := render.ParseCSS(s)
+		c, err := parseShared(s)
 		if err != nil {
 			return nil, err
 		}
